@@ -16,7 +16,10 @@ pub fn name(rng: &mut Rng, small: bool) -> String {
 }
 
 pub fn string(rng: &mut Rng) -> String {
-    match rng.below(8) {
+    match rng.below(10) {
+        // text that ends in line breaks (`info!("done\n")`, a `Display` that uses `writeln!`)
+        8 => (*rng.pick(&["done\n", "a\nb\r\n", "\n", "\r", "x\n\n", " \t"])).to_owned(),
+        9 => format!("s{}\n", rng.below(3)),
         0 => String::new(),
         1 => "hello".into(),
         2 => "héllo wörld ✓".into(),
@@ -33,11 +36,13 @@ pub const I64_EDGES: [i128; 10] = [
     i128::MIN, i128::MAX, 42,
 ];
 pub const U64_EDGES: [u128; 7] = [0, 1, u64::MAX as u128, u64::MAX as u128 + 1, u128::MAX, i64::MAX as u128, 42];
-pub const F64_EDGES: [u64; 14] = [
+pub const F64_EDGES: [u64; 17] = [
     0x0000_0000_0000_0000, 0x8000_0000_0000_0000, 0x3ff0_0000_0000_0000, 0xbff0_0000_0000_0000,
     0x0000_0000_0000_0001, 0x000f_ffff_ffff_ffff, 0x0010_0000_0000_0000, 0x7fef_ffff_ffff_ffff,
     0xffef_ffff_ffff_ffff, 0x3fb9_9999_9999_999a, 0x4340_0000_0000_0000, 0x7ff0_0000_0000_0000,
     0xfff0_0000_0000_0000, 0x7ff8_0000_0000_0000,
+    // NaNs other than the canonical one: negative, with a payload, signalling
+    0xfff8_0000_0000_0000, 0x7ff8_0000_0000_beef, 0x7ff0_0000_0000_0001,
 ];
 
 pub fn finite_f64_bits(rng: &mut Rng) -> u64 {
@@ -71,7 +76,9 @@ pub fn uint128(rng: &mut Rng) -> u128 {
 }
 
 pub fn chain(rng: &mut Rng) -> Vec<String> {
-    (0..rng.range(1, 5)).map(|_| string(rng)).collect()
+    // now and then a long chain (an error that bubbled up through many layers)
+    let n = if rng.chance(1, 10) { rng.range(9, 40) } else { rng.range(1, 5) };
+    (0..n).map(|_| string(rng)).collect()
 }
 
 /// A `TracedValue` mirror; `finite` restricts floats to finite ones (JSON-representable).
